@@ -1,0 +1,22 @@
+//go:build verif
+
+package httpserver
+
+import (
+	"net/http"
+)
+
+// Verification hooks (build tag "verif" only).
+
+// VerifHandler returns the request router that Configure set up (what every listener serves).
+func (hc *Coordinator) VerifHandler() http.Handler { return hc.router }
+
+// VerifResetMetrics forgets every series of the process-global Prometheus gauge vectors (between test cases).
+func VerifResetMetrics() {
+	consumerTotalLagGauge.Reset()
+	consumerStatusGauge.Reset()
+	partitionStatusGauge.Reset()
+	consumerPartitionCurrentOffset.Reset()
+	consumerPartitionLagGauge.Reset()
+	topicPartitionOffsetGauge.Reset()
+}
